@@ -17,9 +17,11 @@ Reset == /\ l <= Len(Trace) /\ Ev.ev = "reset" /\ tid' = Ev.tid /\ rejected' = F
 \* the program becomes the value of the variable the specification's operators read
 TProgram == /\ l <= Len(Trace) /\ Ev.ev = "program" /\ prog' = Ev.prog /\ l' = l + 1 /\ UNCHANGED <<tid, rejected>> /\ Keep
 SeqSet(s) == {s[k] : k \in 1..Len(s)}
-Proj(f) == [p |-> f.p, kind |-> IF "struct" \in Focus THEN f.kind ELSE "",
+\* ReadOnly is not compared where an explicit config statement applies inside an rpc, action or notification (outside C12's claim)
+ExemptRO(m) == {f.p : f \in {g \in CanonFlat(m) : g.opcfg}}
+ProjM(f, m) == [p |-> f.p, kind |-> IF "struct" \in Focus THEN f.kind ELSE "",
             ns |-> IF "ns" \in Focus THEN f.ns ELSE "",
-            ro |-> IF "ro" \in Focus THEN f.ro ELSE FALSE,
+            ro |-> IF "ro" \in Focus /\ f.p \notin ExemptRO(m) THEN f.ro ELSE FALSE,
             attrs |-> IF "attrs" \in Focus /\ ~f.implicit THEN <<f.cfg, f.mand, f.dflt, f.la, f.units, f.type, f.iff>> ELSE <<>>]
 ExpectedErr == BuildErr \/ CanonFinal.err
 \* C17: a lookup finds exactly the node the path names: found (and that very node) when the specification has a
@@ -28,11 +30,12 @@ PathsOf(m) == {f.p : f \in CanonFlat(m)}
 LookupsOK(e) == \A k \in 1..Len(e.lookups) :
                   LET q == e.lookups[k] IN
                   IF q.p \in PathsOf(q.mod) THEN q.found /\ q.same ELSE ~q.found
-ObservedOK(e) ==
+ObservedOK1(e) ==
   /\ ("find" \in Focus /\ ~e.errs /\ ~ExpectedErr) => LookupsOK(e)
   /\ "errs" \in Focus => e.errs = ExpectedErr
   /\ (~e.errs /\ ~ExpectedErr) =>
-        \A m \in Mods : {Proj(f) : f \in CanonFlat(m)} = {Proj(f) : f \in SeqSet(e.flat[m])}
+        \A m \in Mods : {ProjM(f, m) : f \in CanonFlat(m)} = {ProjM(f, m) : f \in SeqSet(e.flat[m])}
+ObservedOK(e) == ("nolate" \in Focus /\ LatePhaseUsed) \/ ObservedOK1(e)
 TObserved == /\ l <= Len(Trace) /\ Ev.ev = "observed" /\ ~rejected /\ ObservedOK(Ev)
              /\ l' = l + 1 /\ UNCHANGED <<tid, rejected, prog>> /\ Keep
 TReject == /\ l <= Len(Trace) /\ Ev.ev = "observed" /\ ~rejected /\ ~ObservedOK(Ev)
